@@ -130,6 +130,9 @@ def history(V, reg, pattern, kinds, reg_classes, res_classes, fallback=None, fir
             r = {'kind': first_kind if first_kind and not regs else V.pick('kind%d' % step, kinds) if len(kinds) > 1 else kinds[0],
                  'cls': V.pick('cls%d' % step, reg_classes),
                  'allow_sub': V.bool('sub%d' % step), 'prio': V.int('prio%d' % step, -1, 1), 'fn': mk_fn(step)}
+            if len(regs) == 1 and len(pattern) <= 4 and V.bool('same_fn%d' % step):
+                # the same callable registered again under other criteria: both registrations stand
+                r['fn'] = regs[0]['fn']
             do_register(reg, r)
             regs.append(r)
     return regs
@@ -145,7 +148,7 @@ def _mk_class(pattern, three):
 for _p in patterns(4):
     ob('registry/class/' + _p, marks=['resolved-after-register'], budget=(60, 200),
        bounds='fresh TypeRegistry(cache=True); operation sequence %s (R = register(class in {A, B<A}, '
-              'allow_subclasses bool, priority symbolic in -1..1), Q = resolve(class in {A, B, X})); identity of the '
+              'allow_subclasses bool, priority symbolic in -1..1, the callable fresh or the one of the first registration), Q = resolve(class in {A, B, X})); identity of the '
               'resolved function compared with the cache-free reference after every resolve' % _p,
        out='histories longer than 4 (thorough 5)')(_mk_class(_p, False))
 for _p in patterns(3):
